@@ -261,6 +261,9 @@ func OracleC04(run *common.Run, id string, res *Result) int {
 	injected := false
 	for i, s := range res.Toks {
 		t := parseTok(s)
+		if t.op != "RT" && t.n < 0 {
+			fail("unknown-descriptor", fmt.Sprintf("event %s on a descriptor that is not a node of the source graph (altered media type / size / digest?)", s))
+		}
 		switch t.op {
 		case "SB", "PB":
 			add(t.op, t.n, i)
@@ -438,6 +441,22 @@ func Drive(run *common.Run, prop string, b Budget) {
 		if c.Sched {
 			run.Count("controlled-schedule(synctest)")
 		}
+		if c.Stream == "twinreach" && res.Err == nil && (c.Dst == "oci" || c.Dst == "ocire" || (c.Dst == "file" && len(c.Titled) > 0)) {
+			miss := false
+			for i := range g.Reach(res.Root2) {
+				if !res.Present[i] {
+					miss = true
+				}
+			}
+			if miss {
+				run.Count("twinreach defect order")
+			} else {
+				run.Count("twinreach harmless order")
+			}
+		}
+		if c.Stream == "platimage" && res.Err == nil {
+			run.Count("platform on image manifest: selected")
+		}
 		switch c.cbBits() {
 		case "11111":
 			run.Count("callbacks=all-set")
@@ -471,6 +490,10 @@ func Drive(run *common.Run, prop string, b Budget) {
 		if res.Err != nil {
 			run.Count("returned-error")
 		}
+		if c.Stream == "contention" && res.Keff >= 4 {
+			run.Extra["contention_max_inflight_K>=4"] = maxInt(run.Extra["contention_max_inflight_K>=4"], max(res.SrcMax, res.DstMax))
+		}
+		run.Extra[fmt.Sprintf("max_inflight_seen_K=%d", res.Keff)] = maxInt(run.Extra[fmt.Sprintf("max_inflight_seen_K=%d", res.Keff)], max(res.SrcMax, res.DstMax))
 		run.Extra["max_src_inflight_seen"] = maxInt(run.Extra["max_src_inflight_seen"], res.SrcMax)
 		run.Extra["max_dst_inflight_seen"] = maxInt(run.Extra["max_dst_inflight_seen"], res.DstMax)
 		if res.Hang {
@@ -587,6 +610,35 @@ func Drive(run *common.Run, prop string, b Budget) {
 		}
 	}
 	os.Remove(currentCasePath(run.Dir))
+
+	// coverage floors: a run whose streams did not reach the situations they exist for must not pass silently
+	// (reported as a harness failure = layer R, not as a property violation)
+	floor := func(what string, got, want int) {
+		if got < want {
+			panic(fmt.Sprintf("coverage floor not reached: %s: %d < %d", what, got, want))
+		}
+	}
+	if b.Contention >= 100 {
+		got, _ := run.Extra["contention_max_inflight_K>=4"].(int)
+		floor("contention stream: peak operations in flight for some K >= 4 (otherwise the bound is only exercised for K <= 3)", got, 4)
+	}
+	if b.RootPresent >= 60 {
+		for _, m := range []string{"Tagger", "ReferencePusher"} {
+			for _, h := range []string{"nil", "set"} {
+				floor("matrix root-present/"+m+"/OnCopySkipped-"+h, run.Dist["matrix root-present/"+m+"/OnCopySkipped-"+h], 5)
+			}
+		}
+	}
+	if b.TwinReach >= 60 {
+		floor("twinreach stream: runs in which the manifest was probed after its twin blob was stored", run.Dist["twinreach defect order"], 1)
+		floor("twinreach stream: runs in which the manifest was probed first", run.Dist["twinreach harmless order"], 1)
+	}
+	if b.PlatImage >= 30 {
+		floor("platimage stream: successful platform selection on an image manifest", run.Dist["platform on image manifest: selected"], 1)
+	}
+	if T != nil && b.Sched > 0 {
+		floor("controlled schedules", run.Dist["controlled-schedule(synctest)"], b.Sched)
+	}
 }
 
 func implLine(res *Result) string {
